@@ -469,8 +469,11 @@ class ConfigNode(metaclass=ConfigNodeMeta):
         self._inherit_unsafety(other)
         self._metadata = { **other._metadata, **self._metadata }
         if allow_promotions:
-            return self._maybe_promote(other)
-        return self
+            ret = self._maybe_promote(other)
+        else:
+            ret = self
+        ret._propagate_implicit_values() # (the safety of the node might have changed)
+        return ret
 
     def _inherit_unsafety(self, other):
         ''' "other" might be unsafe only because of where it was written (below an !unsafe node,
